@@ -98,8 +98,7 @@ def worker(args):
         while i < args.max_runs:
             if time.time() - t0 > args.budget and out["runs"] > 0:
                 break
-            if out["runs"] and out["runs"] % 50 == 0 and \
-                    resource.getrusage(resource.RUSAGE_SELF).ru_maxrss > RECYCLE_RSS_KB:
+            if out["runs"] and resource.getrusage(resource.RUSAGE_SELF).ru_maxrss > RECYCLE_RSS_KB:
                 # cogent3 keeps every unpickled MolType alive: a long-lived shard grows
                 # by ~0.5 MB per parallel run.  Hand over to a fresh interpreter.
                 out["next"] = i
